@@ -447,14 +447,23 @@ def _run_history(hist, limit0):
             bad = 0
             for n in range(70):
                 inner = "(" * (n % 7) + "@.a == nosuch(" + "(1)" * (n % 3) + ")" + ")" * (n % 7)
-                for q in (f"$[?{inner}]", f"$[?@.a && ({'!' * (n % 2)}(@.b ||", f"$[?count(@[?@[?length({n})]]) ]", f"$[?'{n}]"):
+                for q in (f"$[?{inner}]", f"$[?@.a && ({'!' * (n % 2)}(@.b ||", f"$[?count(@[?@[?length({n})]]) ]", f"$[?'{n}]",
+                          # rejected in the middle of a string literal, after some valid characters
+                          f"$['x{n}\\uD83D']", f"$[?@.b == 'pre{n}\x01fix']", f'$["q{n}\\u12"]'):
                     try:
                         env.compile(q)
                     except Exception as ex:  # noqa: BLE001
                         if "JSONPathError" in [c.__name__ for c in type(ex).__mro__]:
                             bad += 1
             exp = ("ok", None)
-            obs = ("ok", None) if bad == 280 else ("err", f"only {bad} of 280 invalid queries were rejected with a JSONPathError")
+            obs = ("ok", None) if bad == 490 else ("err", f"only {bad} of 490 invalid queries were rejected with a JSONPathError")
+            if obs[0] == "ok":
+                # and the next valid queries with quoted names / literals mean what they say
+                exp = m.expect(e, "qM", "d1", w.docs)
+                obs = observe(lambda: env.find(Q["qM"], w.docs["d1"]))
+                if tuple(exp) == tuple(obs[:2]):
+                    exp = ("ok", [["l", 0, "b"]])
+                    obs = observe(lambda: env.find("$['l'][0]['b']", w.docs["d1"]))
         elif kind in ("recompile_after_range_change", "refind_after_range_change"):
             # the integer range of ONE environment instance is narrowed between two uses of the same text
             _, e = op
